@@ -38,7 +38,7 @@ TAB1 = {'name': 'TAB1', 'cols': [['i', 'int'], ['x', 'double'], ['s', 'char[8]']
 TAB2 = {'name': 'tab2', 'cols': [['name', 'char[8]'], ['arr', 'int[2]'], ['tags', 'char[2][4]']]}
 ROWMENU = {
     'TAB1': [[1, 0.5, 'a', 'u'], [-2147483648, 0.1, 'a b', 'uu'], [7, 1.0 / 3.0, '', 'u u u'], [0, -0.0, '#', 'uuuuuu'],
-             [2147483647, 1e300, 'a#b', 'u#uuuuu'], [5, 2.5, "it's", 'uuuuuuuuu'], [6, -1.5, 'a;b', ''],
+             [2147483647, 1e300, 'a#b', 'u#uuuuu'], [5, 2.5, "it's", 'uuuuuuuuu'], [6, -1.5, 'a\x0cb', ''],
              [8, 4.0, 'x\\y', 'uuuuuuuuuuu']],
     'TAB2': [['n0', [1, 2], ['ab', 'cd']], ['a b', [-1, 0], ['', 'x y']], ['', [2147483647, -2147483648], ['a#b', 'q']],
              ['#', [3, 4], ['e', '']], ['trail ', [5, 6], ['it', 'is']], [' lead', [7, 8], ['a;b', 'zz']],
